@@ -63,13 +63,13 @@ Theorem c01_rejected_never_runs : forall coin_lt w now m k r, do_begin coin_lt w
 Proof. exact rejected_never_runs. Qed.
 Print Assumptions c01_rejected_never_runs.
 
-(* an admitted call that ends records exactly one outcome: success iff acceptable(err); a panic and an
+(* an let_in call that ends records exactly one outcome: success iff acceptable(err); a panic and an
    unacceptable error are failures, and the outcome (error or panic) is what the caller gets back *)
-Theorem c01_one_mark_per_admitted : forall w now k o,
+Theorem c01_one_mark_per_call_let_in : forall w now k o,
   do_end w now k o = (add w now (if acceptable k o then 1 else 0), RRan o) /\
   acceptable k Panics = false /\ acceptable k UnacceptableErr = false /\ acceptable k OK = true.
 Proof. exact one_mark_per_end. Qed.
-Print Assumptions c01_one_mark_per_admitted.
+Print Assumptions c01_one_mark_per_call_let_in.
 
 (* registry: the same name yields the same breaker, events under one name leave the others alone *)
 Theorem c01_registry_independent :
